@@ -791,12 +791,17 @@ auto vyukov_hash_map<Key, Value, Policies...>::find(const key_type& key) -> iter
     }
   }
 
+  // the iterator has to be in the same state as if it had been moved to this item via operator++,
+  // i.e., index and prev have to be set as well - erase(iterator&) relies on prev to unlink the item.
+  result.index = item_count;
+  result.prev = &bucket.head;
   auto extension = bucket.head.load(std::memory_order_relaxed);
   while (extension) {
     if (traits::template compare_key<false>(extension->key, extension->value, key, h, acc)) {
       result.extension = extension;
       return result;
     }
+    result.prev = &extension->next;
     extension = extension->next.load(std::memory_order_relaxed);
   }
 
